@@ -15,6 +15,9 @@ impl<V> DefMap<V> {
 impl InstMap {
     // which instantiation keys are memoised (the mapped names are not specified)
     pub uninterp spec fn has(&self, k: (Seq<char>, Seq<Ty>)) -> bool;
+    // the names handed out so far (the table's values)
+    pub uninterp spec fn names(&self) -> Set<Seq<char>>;
+    #[verifier::external_body] pub fn has_name(&self, n: &TastIdent) -> (r: bool) ensures r == self.names().contains(n.0@) { unimplemented!() }      // self.map.values().any(|v| *v == n)
     #[verifier::external_body]
     pub fn get(&self, k: &(String, Vec<Ty>)) -> (r: Option<&TastIdent>)
         ensures (r is Some) == self.has((k.0@, k.1@)),
@@ -166,3 +169,4 @@ impl<'a> TypeMono<'a> {
         &&& forall|k: Seq<char>| self.struct_base.keys().contains(k) ==> structdef_ok(#[trigger] self.struct_base.at(k), self.enum_base, self.struct_base)
     }
 }
+#[verifier::external_body] pub fn push_underscore(name: String) -> (r: String) { unimplemented!() }      // name.push('_')
